@@ -164,12 +164,12 @@ Export ==
         /\ Record([op |-> "export", name |-> "map", v |-> v])
         /\ UNCHANGED raw
 
-\* the module-level API creates a Validator per call: a fresh cache, the object is untouched
+\* the module-level API creates a Validator per call: a fresh cache, the object is untouched.
+\* mappyfile.validate(doc, version = v) uses the schema of the document's own root type.
 ModValidate ==
-    /\ \E d \in DocRecs : d.root = "map"
-    /\ \E d \in Pick({x \in DocRecs : x.root = "map"}), v \in Pick(VersionsN) :
-        /\ answer' = MechValidate(IF v = NoVersion THEN Fresh ELSE Touch(Fresh, "map", v), d, v)
-        /\ Record([op |-> "mod_validate", doc |-> d.id, name |-> "map", v |-> v])
+    \E d \in Pick(DocRecs), v \in Pick(VersionsN) :
+        /\ answer' = MechValidate(IF v = NoVersion THEN Fresh ELSE Touch(Fresh, d.root, v), d, v)
+        /\ Record([op |-> "mod_validate", doc |-> d.id, name |-> d.root, v |-> v])
         /\ UNCHANGED <<raw, exp>>
 
 ModExport ==            \* the `mappyfile schema [--version=v]` command, run in this process
